@@ -271,13 +271,13 @@ func calculateAmountCostLen(posting *ast.Posting, commodityFormats map[string]Nu
 	length := 0
 
 	if posting.Amount.Commodity.Position == ast.CommodityLeft {
-		length += utf8.RuneCountInString(commoditySymbolText(posting.Amount.Commodity.Symbol))
+		length += utf8.RuneCountInString(commoditySymbolText(posting.Amount.Commodity.Symbol, posting.Amount.Commodity.Position == ast.CommodityLeft))
 	}
 
 	length += utf8.RuneCountInString(formatAmountQuantity(posting.Amount, commodityFormats))
 
 	if posting.Amount.Commodity.Position == ast.CommodityRight {
-		length += 1 + utf8.RuneCountInString(commoditySymbolText(posting.Amount.Commodity.Symbol))
+		length += 1 + utf8.RuneCountInString(commoditySymbolText(posting.Amount.Commodity.Symbol, posting.Amount.Commodity.Position == ast.CommodityLeft))
 	}
 
 	if posting.Cost != nil {
@@ -287,11 +287,11 @@ func calculateAmountCostLen(posting *ast.Posting, commodityFormats map[string]Nu
 			length += 3 // " @ "
 		}
 		if posting.Cost.Amount.Commodity.Position == ast.CommodityLeft {
-			length += utf8.RuneCountInString(commoditySymbolText(posting.Cost.Amount.Commodity.Symbol))
+			length += utf8.RuneCountInString(commoditySymbolText(posting.Cost.Amount.Commodity.Symbol, posting.Cost.Amount.Commodity.Position == ast.CommodityLeft))
 		}
 		length += utf8.RuneCountInString(formatAmountQuantity(&posting.Cost.Amount, commodityFormats))
 		if posting.Cost.Amount.Commodity.Position == ast.CommodityRight {
-			length += 1 + utf8.RuneCountInString(commoditySymbolText(posting.Cost.Amount.Commodity.Symbol))
+			length += 1 + utf8.RuneCountInString(commoditySymbolText(posting.Cost.Amount.Commodity.Symbol, posting.Cost.Amount.Commodity.Position == ast.CommodityLeft))
 		}
 	}
 
@@ -382,7 +382,7 @@ func formatPostingWithOpts(posting *ast.Posting, alignment AlignmentInfo, commod
 
 func writeAmountWithSign(sb *strings.Builder, amount *ast.Amount, commodityFormats map[string]NumberFormat) {
 	qty := formatAmountQuantity(amount, commodityFormats)
-	symbol := commoditySymbolText(amount.Commodity.Symbol)
+	symbol := commoditySymbolText(amount.Commodity.Symbol, amount.Commodity.Position == ast.CommodityLeft)
 
 	if amount.Commodity.Position == ast.CommodityLeft {
 		if amount.SignBeforeCommodity && len(qty) > 0 && (qty[0] == '-' || qty[0] == '+') {
@@ -402,14 +402,19 @@ func writeAmountWithSign(sb *strings.Builder, amount *ast.Amount, commodityForma
 	}
 }
 
-// commoditySymbolText is the symbol as it has to be written: a symbol with anything but letters, digits and currency
-// signs in it (a blank, say), or one that starts with a digit, only reads back as one symbol in double quotes.
-func commoditySymbolText(symbol string) string {
+// commoditySymbolText is the symbol as it has to be written. To the right of the number a symbol of letters (and digits
+// after the first letter) or currency signs reads back as it is; to the left of the number only capital letters and
+// currency signs do (anything else would run into the number: "usd" 5, "A1" 5). Every other symbol - one with a blank
+// in it, say - reads back as one symbol only in double quotes.
+func commoditySymbolText(symbol string, left bool) string {
 	for i, r := range symbol {
-		if unicode.IsLetter(r) || unicode.Is(unicode.Sc, r) || (i > 0 && unicode.IsDigit(r)) {
-			continue
+		switch {
+		case unicode.Is(unicode.Sc, r):
+		case left && r >= 'A' && r <= 'Z':
+		case !left && (unicode.IsLetter(r) || (i > 0 && unicode.IsDigit(r))):
+		default:
+			return "\"" + symbol + "\""
 		}
-		return "\"" + symbol + "\""
 	}
 	return symbol
 }
